@@ -21,6 +21,9 @@ func runDump(args []string) int {
 		sp = &FuncSpec{Key: key, Loops: map[int]*LoopSpec{}, NoPanic: true}
 	}
 	for _, a := range args[1:] {
+		if a == "immutable" {
+			sp = &FuncSpec{Key: key, Loops: map[int]*LoopSpec{}, ImmutChk: true, Implicit: true}
+		}
 		if a == "lockset" {
 			sp = &FuncSpec{Key: key, Loops: map[int]*LoopSpec{}, Lockset: true, Implicit: true}
 		}
